@@ -22,6 +22,8 @@ CFG = {
         "Results are fresh values: program cases (CProg) are accepted only when every pool member after every step equals the "
         "model in which each result is an independent value; prog_sound proves those observations satisfy the boolean-array "
         "specification for every program (c08_prog_sound, c08_fresh_values). "
+        "Independent bitmaps used from different goroutines: class par/* (no new Coq - its observations are ordinary "
+        "CGet/CIter/CBin/CReverse/CLen cases); the sequential theorems apply because the instances share no state by contract. "
         "case_sound is proved through the model theorems (accept = 'observed = model output', holds = 'observed = specification', "
         "no conjunction trick). Trusted: Coq kernel + vm_compute; the hand model C08_Model.v (+ BitSet.v set_i32/unset_i32/band/bor/"
         "brev/bequal); math/bits.TrailingZeros64 / Len64 / OnesCount64 modelled as ctz / N.log2 / popcount on the binary "
@@ -38,6 +40,11 @@ CFG = {
         "and operands), every pool member re-read after every step and compared with independent boolean arrays; prog/alias forces "
         "empty intersections (disjoint operands), x op x, an empty operand (result equal to the other operand), mutates the result, "
         "repeats the same kind of operation on other operands, then mutates operands and both results; "
+        "class par/* = private instances in parallel: 2*GOMAXPROCS (16..32) goroutines behind a spin barrier (atomic counter, no "
+        "sleeps), each with its OWN bitmaps (distinct contents), 40 000 iterations (300 000 thorough) of 12 value-returning calls "
+        "(GetNAs*/RGetNAs*, Iter*/RIter*, And/Or/OrThenReverse/Reverse, Len/NLen); each result is compared in Go with the first "
+        "result of the same call in that goroutine and every DISTINCT observation per (goroutine, call) is emitted as an ordinary "
+        "case decided by Coq; instances share nothing by contract, so any second observation is a violation under every schedule; "
         "iterator / GetN cases are non-trivial when the bitmap has at least one member, every other case always; "
         "distinct = distinct (function, inputs incl. sparse threshold, observed outcome)"
     ),
